@@ -194,14 +194,16 @@ pub fn repo_scripts() -> Vec<(String, String)> {
 /// hostile literals: char-list / byte-list / number tokens assembled from escape, code-point and digit
 /// fragments (valid, boundary and malformed), alone or inside a small program
 pub fn literal_soup(r: &mut Rng) -> String {
-    const FRAG: [&str; 52] = [
+    const FRAG: [&str; 54] = [
         "a", "é", "😀", " ", "\\n", "\\t", "\\r", "\\0", "\\\\", "\\\"", "\\'", "\\q", "\\", "\\u{41}", "\\u{}", "\\u{D800}", "\\u{DFFF}", "\\u{DBFF}", "\\u{D7FF}", "\\u{E000}", "\\u{10FFFF}",
         "\\u{110000}", "\\u{FFFFFFFF}", "\\u{7FFFFFFF}", "\\u{80000000}", "\\u{-1}", "\\u{1.5}", "\\u{zz}", "\\u{41", "\\u41}", "\\u{{41}}", "\\u{0041 }", "\\u", "{", "}", "\n", "\t", "'", "\"\"", "0",
-        "255", "256", "-1", "02_11", "1e5", "999999999999", "\\u{0}", "\\u{d800}", "\\u{FFFF}", "\\u{1_0}", "_", ".",
+        "255", "256", "-1", "02_11", "1e5", "999999999999", "\\u{0}", "\\u{d800}", "\\u{FFFF}", "\\u{1_0}", "_", ".", "\\u{0٣_41}", "0٣_1",
     ];
-    const NUMS: [&str; 40] = [
+    const NUMS: [&str; 47] = [
         "0", "00", "2147483647", "2147483648", "99999999999999999999", "1_000", "1__0", "1_", "02_1111", "02_2", "016_FF", "016_fg", "036_zz", "037_1", "01_0", "00_0", "0_5", "08_77", "010_9", "020_11", "1.5", "1.", "1.5.5",
         "1e5", "1e", "1e+5", "1e-5", "1e999", "1.5e3", "0.0000001", "1_0.5", "02_1.1", "9.9e307", "1e308", "4e-324", "0e0", "12abc", "1a", "0x10", "1_e5",
+        // digits outside ASCII, in the radix prefix and in the body
+        "0٣_12", "03６_zz", "0²_101", "٣٤", "1٣", "016_ＦＦ", "0１0_7",
     ];
     let lit = match r.below(5) {
         0 | 1 => {
